@@ -15,6 +15,8 @@ use miniz_oxide::inflate::decompress_to_vec_zlib_with_limit;
 
 const ZXST_MID_128K: u32 = 2;
 
+const ZXSTZ80_INTERRUPT_MODE_MAX: u8 = 2;
+
 const ZXSTZF_EILAST: u32 = 1;
 const ZXSTZF_HALTED: u32 = 2;
 const ZXSTZF_FSET: u32 = 4;
@@ -40,7 +42,13 @@ fn process_crtr_block<H: Host>(_: &mut Emulator<H>, block_data: &[u8]) {
 }
 
 // Process ZXSTZ80REGS (Z80R) block
-fn process_z80r_block<H: Host>(emulator: &mut Emulator<H>, block_data: &[u8]) {
+fn process_z80r_block<H: Host>(emulator: &mut Emulator<H>, block_data: &[u8]) -> Result<()> {
+    // Validate before any change of the CPU state
+    let interrupt_mode = block_data[28];
+    if interrupt_mode > ZXSTZ80_INTERRUPT_MODE_MAX {
+        return Err(SnapshotLoadError::InvalidSZXFile.into());
+    }
+
     // Drop state of the previously executed code (e.g. pending prefix), halt and EI
     // state are set from the `chFlags` below
     emulator.cpu.reset_control_state();
@@ -136,7 +144,7 @@ fn process_z80r_block<H: Host>(emulator: &mut Emulator<H>, block_data: &[u8]) {
     emulator.cpu.regs.set_iff2(block_data[27] > 0);
 
     // IM
-    emulator.cpu.set_im(block_data[28]);
+    emulator.cpu.set_im(interrupt_mode);
 
     // dwCyclesStart
     emulator.controller.frame_clocks = u32::from_le_bytes([
@@ -168,6 +176,8 @@ fn process_z80r_block<H: Host>(emulator: &mut Emulator<H>, block_data: &[u8]) {
         .cpu
         .regs
         .set_mem_ptr(u16::from_le_bytes([block_data[35], block_data[36]]));
+
+    Ok(())
 }
 
 // Process ZXSTSPECREGS (SPCR) block
@@ -386,7 +396,7 @@ where
                 process_crtr_block(emulator, &block_data);
             }
             "Z80R" => {
-                process_z80r_block(emulator, &block_data);
+                process_z80r_block(emulator, &block_data)?;
             }
             "SPCR" => {
                 process_spcr_block(emulator, machine_id, &block_data);
